@@ -24,10 +24,10 @@ def mergeTags (pa pb : Fib Int Nat) (rawA rawB : Nat) : List String :=
     that position, `none` = a freshly synthesised default.  Format "C": the non-empty stored elements;
     format "U" with shape `n`: every coordinate `0..n-1` (stored payload, explicit defaults included,
     or a fresh default) -/
-def presentRef (fmt : String) (shape : Nat) (dflt : Int) (d : Nat) (f : T (d + 1)) : Fib Int (Option Nat) :=
+def presentRef (fmt : String) (lo shape : Nat) (dflt : Int) (d : Nat) (f : T (d + 1)) : Fib Int (Option Nat) :=
   if fmt == "U" then
-    (List.range shape).map (fun (n : Nat) =>
-      let c : Int := Int.ofNat n
+    (List.range (shape - lo)).map (fun (n : Nat) =>
+      let c : Int := Int.ofNat (n + lo)
       let l := (show List (Int × T d) from f)
       let i := lowerBound l c
       (c, match l[i]? with | some e => if e.1 = c then some i else none | none => none))
@@ -95,8 +95,10 @@ def handleC04Core (j : Json) : Except String Verdict := do
   let impl ← fArr j "impl"
   let fa := fStrD j "fa" "C"; let fb := fStrD j "fb" "C"
   let sa := (fNat j "sa").toOption.getD 0; let sb := (fNat j "sb").toOption.getD 0
-  let pa := presentRef fa sa dflt d a
-  let pb := presentRef fb sb dflt d b
+  -- active range of an uncompressed operand: [la, sa) (la defaults to 0)
+  let la := (fNat j "la").toOption.getD 0; let lb := (fNat j "lb").toOption.getD 0
+  let pa := presentRef fa la sa dflt d a
+  let pb := presentRef fb lb sb dflt d b
   let pre := wfB (d + 1) a && wfB (d + 1) b
   if !pre then return { agree := true, spec := true, tags := ["OUT_OF_MODEL"] }
   let tags := mergeTags (pa.map (fun e => (e.1, 0))) (pb.map (fun e => (e.1, 0)))
